@@ -35,6 +35,15 @@ Theorem C13_unlocked_racy :
 Proof. exact unlocked_racy. Qed.
 Print Assumptions C13_unlocked_racy.
 
+(* one sequential specification: the map against which histories are linearized is the store
+   model of C14 (Model/Store.v, the machine run side by side with the Go store) *)
+Theorem C13_spec_is_the_store_model :
+  forall (s : dst) (op : lop),
+    d_map (fst (dstep s (sop_of_lop op))) = fst (lstep (d_map s) op) /\
+    lret_eqb (lret_of_sret (snd (dstep s (sop_of_lop op)))) (snd (lstep (d_map s) op)) = true.
+Proof. exact lstep_is_dstep. Qed.
+Print Assumptions C13_spec_is_the_store_model.
+
 (* the witness checker applied to the implementation's histories is sound: an accepted witness
    proves the history linearizable in the same sense *)
 Theorem C13_check_witness_sound :
